@@ -127,16 +127,26 @@ fn gen_section(t: &mut Tape, src: usize, feature_pool: &[String], allow_features
 fn gen_scenario(t: &mut Tape) -> Scenario {
     let mut sc = Scenario::default();
     let ncustom = t.weighted(&[1, 3, 3, 2]);
-    let names: Vec<String> = (0..ncustom).map(|i| format!("f{}", i + 1)).collect();
+    // a custom section may carry the name of a builtin feature (`[delta "side-by-side"]`): the
+    // user's additions to that feature, including further features it enables
+    let mut names: Vec<String> = Vec::new();
+    for i in 0..ncustom {
+        let n = if t.chance(1, 4) { BUILTINS[t.below(BUILTINS.len())].to_string() } else { format!("f{}", i + 1) };
+        names.push(if names.contains(&n) { format!("f{}", i + 1) } else { n });
+    }
     for (i, n) in names.iter().enumerate() {
-        // a custom feature may list later customs and builtins (no cycles)
+        // a custom feature may list later customs and builtins (no cycles: not itself, nor a
+        // builtin name that an earlier custom section carries)
         let mut pool: Vec<String> = names[i + 1..].to_vec();
-        pool.extend(BUILTINS.iter().map(|s| s.to_string()));
-        let s = gen_section(t, 10 + i, &pool, true);
+        let later: Vec<String> = pool.clone();
+        pool.extend(BUILTINS.iter().map(|s| s.to_string()).filter(|b| !names[..=i].contains(b) && !later.contains(b)));
+        let mut s = gen_section(t, 10 + i, &pool, true);
+        s.flags.retain(|f| f != n);
+        s.opts.retain(|(k, _)| k != n);
         sc.custom.push((n.clone(), s));
     }
     let mut all: Vec<String> = names.clone();
-    all.extend(BUILTINS.iter().map(|s| s.to_string()));
+    all.extend(BUILTINS.iter().map(|s| s.to_string()).filter(|b| !names.contains(b)));
     sc.main = gen_section(t, 1, &all, true);
     if t.chance(1, 4) {
         let n = t.range(1, 2);
@@ -439,7 +449,23 @@ fn tables(ctx: &Ctx) -> Result<(BTreeMap<String, Builtin>, BTreeMap<String, Stri
                 }
             }
         }
-        m.insert(b.to_string(), Builtin { defs, children: vec![] });
+        // builtin features that <b> enables in turn (side-by-side => line-numbers): a custom
+        // section named like such a child then becomes a source too.  Learnt the same way: the
+        // child's section sets a probe value; it shows iff enabling <b> enables the child.
+        let mut children = Vec::new();
+        for c2 in BUILTINS {
+            if c2 == b {
+                continue;
+            }
+            let mut c = base.clone();
+            c.gitconfig = Some(format!("[delta \"{}\"]\n    right-arrow = childprobe\n", c2));
+            c.set("features", b);
+            let s = exec::session(&c, ctx)?;
+            if parse_show_config(&s.show_config()).get("right-arrow").map(|v| v.contains("childprobe")).unwrap_or(false) {
+                children.push(c2.to_string());
+            }
+        }
+        m.insert(b.to_string(), Builtin { defs, children });
     }
     Ok((m, defaults))
 }
@@ -458,7 +484,7 @@ impl Prop for C13 {
         600
     }
     fn rule(&self) -> String {
-        "cases = placement of marker values for 16 observable options of every value type (string, bool, integer, float, style) over the sources: command line, main [delta] section, GIT_CONFIG_PARAMETERS (old and new quoting), up to three custom [delta \"f\"] sections, the seven builtin features (what each defines is learnt from delta in the simplest setting `--features <b>`), defaults - under a generated feature graph: `features =` lists in main/custom sections (nested, repeated, acyclic), boolean feature flags in sections, --features, DELTA_FEATURES without '+' (a list of 1-3 features, as --features) and with '+' (one feature), feature flags on the command line; --no-gitconfig. Oracle: a reference resolver written from the documented order (command line > main section incl. env override > enabled features last-listed first, custom section before builtin value, --features/DELTA_FEATURES before flags > default; nested features: parent before its descendants) predicts every observed option's value as printed by --show-config; three constructions of the same configuration must print the same; with --no-gitconfig the result equals that of an empty gitconfig. Non-trivial = >=2 sources set some observed option and >=1 feature edge is nested; distinct by hash of the scenario.".to_string()
+        "cases = placement of marker values for 16 observable options of every value type (string, bool, integer, float, style) over the sources: command line, main [delta] section, GIT_CONFIG_PARAMETERS (old and new quoting), up to three custom [delta \"f\"] sections (a quarter of them named like a builtin feature, i.e. the user's additions to it), the seven builtin features (what each defines is learnt from delta in the simplest setting `--features <b>`), defaults - under a generated feature graph: `features =` lists in main/custom sections (nested, repeated, acyclic), boolean feature flags in sections, --features, DELTA_FEATURES without '+' (a list of 1-3 features, as --features) and with '+' (one feature), feature flags on the command line; --no-gitconfig. Oracle: a reference resolver written from the documented order (command line > main section incl. env override > enabled features last-listed first, custom section before builtin value, --features/DELTA_FEATURES before flags > default; nested features: parent before its descendants) predicts every observed option's value as printed by --show-config; three constructions of the same configuration must print the same; with --no-gitconfig the result equals that of an empty gitconfig. Non-trivial = >=2 sources set some observed option and >=1 feature edge is nested; distinct by hash of the scenario.".to_string()
     }
     fn assumptions(&self) -> Vec<String> {
         vec![
@@ -555,6 +581,7 @@ impl Prop for C13 {
         ctx.class_if(sc.delta_features.is_some(), "DELTA_FEATURES");
         ctx.class_if(!sc.env_params.is_empty(), "GIT_CONFIG_PARAMETERS");
         ctx.class_if(nested, "nested-features");
+        ctx.class_if(sc.custom.iter().any(|(n, s)| BUILTINS.contains(&n.as_str()) && (s.features.is_some() || !s.flags.is_empty())), "custom-section-named-like-a-builtin-enables-features");
         if multi && nested {
             ctx.nontrivial(fnv(format!("{:?}", sc).as_bytes()));
             if ctx.want_sample() {
